@@ -42,6 +42,9 @@ pub struct Spec {
     /// a plain run(n_collect, n_discard) on the same sampler object BEFORE the judged call (its draws are
     /// dropped): the judged call then starts from a sampler that has already run
     pub prior: Option<(usize, usize)>,
+    /// run a `Clone` of the built (seeded, not yet run) sampler instead of the built object itself: a clone is
+    /// the sampler built from the same inputs and seed (samplers without a Clone impl run the built object)
+    pub clone_of: bool,
 }
 
 pub struct RunOut {
@@ -127,19 +130,27 @@ pub trait AnySampler {
     /// perform `n` transitions through the public per-transition API (MH/Gibbs: every chain's
     /// step(); HMC: step()); None where no such API reproduces run() (NUTS)
     fn manual_steps(&mut self, n: usize) -> Option<()>;
+    /// `Clone::clone` of the sampler where the library implements Clone for it
+    fn clone_sampler(&self) -> Option<Box<dyn AnySampler>> {
+        None
+    }
 }
 
 pub struct RunnerSampler<S, T, F> {
     pub s: S,
     pub conv: F,
+    pub cloner: Option<fn(&S) -> S>,
     pub ph: std::marker::PhantomData<T>,
 }
 impl<S, T, F> AnySampler for RunnerSampler<S, T, F>
 where
-    S: HasChains<T>,
-    T: ndarray::LinalgScalar + PartialEq + Send + num_traits::ToPrimitive,
-    F: Fn(&Array3<T>) -> (Vec<u64>, [usize; 3]),
+    S: HasChains<T> + 'static,
+    T: ndarray::LinalgScalar + PartialEq + Send + num_traits::ToPrimitive + 'static,
+    F: Fn(&Array3<T>) -> (Vec<u64>, [usize; 3]) + Clone + 'static,
 {
+    fn clone_sampler(&self) -> Option<Box<dyn AnySampler>> {
+        self.cloner.map(|c| Box::new(RunnerSampler { s: c(&self.s), conv: self.conv.clone(), cloner: self.cloner, ph: std::marker::PhantomData }) as Box<dyn AnySampler>)
+    }
     fn run(&mut self, n_collect: usize, n_discard: usize, mode: Mode) -> Result<RunOut, String> {
         match mode {
             Mode::Sequential => {
@@ -192,7 +203,8 @@ impl<T, B, G> AnySampler for HmcSampler<T, B, G>
 where
     T: Float + burn::tensor::ElementConversion + Element + rand_distr::uniform::SampleUniform + num_traits::FromPrimitive,
     B: AutodiffBackend,
-    G: mini_mcmc::distributions::BatchedGradientTarget<T, B> + Sync,
+    T: 'static,
+    G: mini_mcmc::distributions::BatchedGradientTarget<T, B> + Sync + Clone + 'static,
     rand_distr::StandardNormal: rand::distr::Distribution<T>,
     rand_distr::StandardUniform: rand_distr::Distribution<T>,
 {
@@ -209,6 +221,9 @@ where
                 Ok(RunOut { bits, shape, stats: Some(st) })
             }
         }
+    }
+    fn clone_sampler(&self) -> Option<Box<dyn AnySampler>> {
+        Some(Box::new(HmcSampler { h: self.h.clone() }))
     }
     fn state_bits(&mut self) -> Vec<u64> {
         bits_of_f64(&self.h.positions.to_data().convert::<f64>().to_vec::<f64>().unwrap())
@@ -237,10 +252,11 @@ impl<T, B, G> AnySampler for NutsSampler<T, B, G>
 where
     T: Float + burn::tensor::ElementConversion + Element + rand_distr::uniform::SampleUniform + num_traits::FromPrimitive + Send,
     B: AutodiffBackend + Send,
-    G: mini_mcmc::distributions::GradientTarget<T, B> + Sync + Clone + Send,
+    G: mini_mcmc::distributions::GradientTarget<T, B> + Sync + Clone + Send + 'static,
     rand_distr::StandardNormal: rand::distr::Distribution<T>,
     rand_distr::StandardUniform: rand_distr::Distribution<T>,
     rand_distr::Exp1: rand_distr::Distribution<T>,
+    T: 'static,
 {
     fn run(&mut self, n_collect: usize, n_discard: usize, mode: Mode) -> Result<RunOut, String> {
         match mode {
@@ -276,6 +292,9 @@ where
     fn manual_steps(&mut self, _n: usize) -> Option<()> {
         None
     }
+    fn clone_sampler(&self) -> Option<Box<dyn AnySampler>> {
+        Some(Box::new(NutsSampler { s: self.s.clone(), alone: self.alone.clone() }))
+    }
 }
 
 fn nuts_pair<T, B, G>(target: G, init: Vec<Vec<T>>, p: T, seed: u64) -> NutsSampler<T, B, G>
@@ -299,9 +318,18 @@ fn rs<S, T, F>(s: S, conv: F) -> Box<dyn AnySampler>
 where
     S: HasChains<T> + 'static,
     T: ndarray::LinalgScalar + PartialEq + Send + num_traits::ToPrimitive + 'static,
-    F: Fn(&Array3<T>) -> (Vec<u64>, [usize; 3]) + 'static,
+    F: Fn(&Array3<T>) -> (Vec<u64>, [usize; 3]) + Clone + 'static,
 {
-    Box::new(RunnerSampler { s, conv, ph: std::marker::PhantomData })
+    Box::new(RunnerSampler { s, conv, cloner: None, ph: std::marker::PhantomData })
+}
+/// as `rs`, for samplers the library implements Clone for
+fn rsc<S, T, F>(s: S, conv: F) -> Box<dyn AnySampler>
+where
+    S: HasChains<T> + Clone + 'static,
+    T: ndarray::LinalgScalar + PartialEq + Send + num_traits::ToPrimitive + 'static,
+    F: Fn(&Array3<T>) -> (Vec<u64>, [usize; 3]) + Clone + 'static,
+{
+    Box::new(RunnerSampler { s, conv, cloner: Some(<S as Clone>::clone), ph: std::marker::PhantomData })
 }
 
 pub const KINDS: &[&str] = &["mh_gauss", "mh_gauss_f32", "mh_table", "gibbs_det", "hmc_f32", "hmc_f64", "hmc_rosen_f32", "nuts_f32", "nuts_f64", "nuts_rosen_f64"];
@@ -318,6 +346,11 @@ pub fn is_nuts(kind: &str) -> bool {
 /// Build the sampler from (inputs, seed) and run it once in `mode`.
 pub fn run_spec(spec: &Spec, mode: Mode) -> Result<RunOut, String> {
     let mut s = build(spec)?;
+    if spec.clone_of {
+        if let Some(c) = s.clone_sampler() {
+            s = c;
+        }
+    }
     if let Some((c, d)) = spec.prior {
         // on the object the judged call will use (the NUTS wrapper keeps stand-alone chains for the
         // sequential reference and the library's multi-chain sampler for run / run_progress)
@@ -340,18 +373,18 @@ pub fn build(spec: &Spec) -> Result<Box<dyn AnySampler>, String> {
         "mh_gauss" => {
             let target = Gaussian2D { mean: arr1(&[0.5f64, -1.0]), cov: arr2(&[[2.0, 0.6], [0.6, 1.0]]) };
             let proposal = IsotropicGaussian::<f64>::new(0.9).set_seed(spec.pos_seed ^ 0x5eed);
-            rs(MetropolisHastings::new(target, proposal, init_with_seed::<f64>(nc, 2, spec.pos_seed)).seed(spec.seed), arr_bits::<f64>)
+            rsc(MetropolisHastings::new(target, proposal, init_with_seed::<f64>(nc, 2, spec.pos_seed)).seed(spec.seed), arr_bits::<f64>)
         }
         "mh_gauss_f32" => {
             let target = Gaussian2D { mean: arr1(&[0.5f32, -1.0]), cov: arr2(&[[2.0, 0.6], [0.6, 1.0]]) };
             let proposal = IsotropicGaussian::<f32>::new(0.9).set_seed(spec.pos_seed ^ 0x5eed);
-            rs(MetropolisHastings::new(target, proposal, init_with_seed::<f32>(nc, 2, spec.pos_seed)).seed(spec.seed), arr_bits::<f32>)
+            rsc(MetropolisHastings::new(target, proposal, init_with_seed::<f32>(nc, 2, spec.pos_seed)).seed(spec.seed), arr_bits::<f32>)
         }
         "mh_table" => {
             let target = TableTarget { logp: vec![-1.0, -0.2, -2.5, f64::NEG_INFINITY, -0.7, -1.3, -3.0] };
             let proposal = WalkProposal { p_up: 0.6, rng: SmallRng::seed_from_u64(0) }.set_seed(spec.pos_seed ^ 0x77);
             let init: Vec<Vec<i32>> = (0..nc).map(|c| vec![(c % 3) as i32]).collect();
-            rs(MetropolisHastings::new(target, proposal, init).seed(spec.seed), arr_bits_i32)
+            rsc(MetropolisHastings::new(target, proposal, init).seed(spec.seed), arr_bits_i32)
         }
         "gibbs_det" => {
             rs(GibbsSampler::new(DetConditional, init_with_seed::<f64>(nc, 3, spec.pos_seed)).set_seed(spec.seed), arr_bits::<f64>)
